@@ -61,6 +61,15 @@ CHECKS['C13'] = dict(
          "balanced scope/flag restoration in analyser visitors (R13.6 of the design is not armed).",
     tech="static analysis: forward must-dataflow (consumed / not-at-end / loop-condition-false facts) with interprocedural summaries, SCC check of the first-call graph, guard dominance for subscripts, exception-escape analysis")
 
+CHECKS['C20'] = dict(
+    text="Version ordering, label, 'already latest', notice decision and install gate decided for all version pairs by exact abstract "
+         "evaluation of the extracted functions over validity² × component orderings³ (precondition — components only compared "
+         "pairwise — checked syntactically); exception escape of the numeric conversion; dominance of the environment-switch early "
+         "return and persistence of the 72 h stamp; checksum line selected by equality and mismatch aborting before extraction.",
+    note=TB + "K-ABS interprets the sx trees of compareSemVer/changeLabel/hasLatest/maybePrintNotice (no repo code is compiled or run). "
+         "Not decided: parseSemVer as a string function, network/filesystem/clock behaviour, behaviour when checksums.txt has no entry.",
+    tech="static analysis: finite abstract evaluation (exhaustive over a quotient domain) of extracted syntax trees + guard dominance + exception-escape analysis")
+
 NOT_YET = "check not yet built in this round (framework under construction; see DESIGN.md §4 for the planned static rules)"
 
 
